@@ -183,6 +183,9 @@ type Server struct {
 	// AuthFactory, if set, overrides the SASL server for a mechanism (C15's adversary).
 	AuthFactory func(mech string, sess *Session) SASLServer
 	Adversaries []*adversary
+	// LastHonestFinal is the latest server-final message an honest SCRAM server of this Server
+	// sent (what an eavesdropper of an earlier session holds).
+	LastHonestFinal string
 }
 
 // New creates a server.
